@@ -453,7 +453,20 @@ int64_t cmb_process_wait_process(struct cmb_process *awaited)
         /* Yield to the dispatcher and collect the return signal value */
         const int64_t sig = (int64_t)cmi_coroutine_yield(NULL);
 
-        /* Possibly much later */
+        /*
+         * Possibly much later. The wakeup from the awaited process removes our
+         * awaitable entry; if it is still there, something else (e.g. a timer)
+         * woke us up, and our registrations must not be left behind.
+         */
+        if (cmi_process_remove_awaitable(me, CMI_PROCESS_AWAITABLE_PROCESS, awaited)) {
+            if (cmi_slist_is_empty(&(awaited->waiters))
+                || !cmi_process_remove_waiter(awaited, me)) {
+                /* It has ended meanwhile and our wakeup is pending: withdraw it */
+                (void)cmb_event_pattern_cancel(wakeup_event_process, me,
+                                               CMB_ANY_OBJECT);
+            }
+        }
+
         return sig;
     }
 }
